@@ -1,5 +1,13 @@
 """C11 -- separate-process mode contains every way a test can die.
-Scenario:    [:ri] <all_sep 0|1> <ntests> ([:ign] test)*
+Scenario:    [:ri] <all_sep 0|1> <ntests> ([:ign] test)*                      one runAllTests pass
+        |    :m <nsteps> step*                                              several passes over ONE registry
+  step ::= <sep 0|1> <ri 0|1> <nadd> ([:from <k>] [:own] [:ign] test)*nadd
+           before the pass the program switches on the registry-wide separate-process mode (sep) / run-ignored mode (ri) -- there is
+           no switching off -- and adds the listed tests (met in the listed order, in front of all older tests); then runAllTests with
+           a TestResult of its own.  :from k = in the passes before pass k (counted from 0) the test is an empty passing test;
+           :own = the shell has a separate-process flag of its own.  In pass k a test is in separate-process mode iff :own or sep was
+           switched on in one of the steps 0..k; every test present is held to the one-pass account for what it is in pass k, in EVERY
+           pass; the runner's own process must live through all the passes (it is run under a supervisor; ":died" otherwise).
   :ri  = registry-wide run-ignored switch (-ri);   :ign = the test is an IGNORE_TEST (shell derived from IgnoredUtestShell): not run
          at all without :ri (no child, no failure, counted as ignored), exactly like the unmarked test with it
   test ::= :plain <fail 0|1>                       ordinary test (own process only when all_sep = 1)
@@ -7,7 +15,8 @@ Scenario:    [:ri] <all_sep 0|1> <ntests> ([:ign] test)*
                wout ::= :ei (EINTR) | :er <errno> (other error) | :x <k> exited | :k <sig> <core> killed | :s <sig> stopped | :c continued
          | :real <n> act*n  x5  <n> inj*n          a real child; actions in plugin pre action, setup, body, teardown, plugin post action
                act ::= :r <sig> raise | :e <k> _exit | :f failing check        inj ::= :ei | :er | :re (faults in front of the real waitpid)
-Observation: per test ":t <started> <nf> cat*nf <waitpid calls> <SIGCONT seen> <lost>", then ":end <failures> <isFailure> <run> <ignored> <late>".
+Observation: per pass: per test ":t <started> <nf> cat*nf <waitpid calls> <SIGCONT seen> <lost>", then ":end <failures> <isFailure> <run> <ignored> <late>";
+             after the passes that were completed ":died <pass> :killed|:exited|:stopped <n>" if the runner's own process died.
 With all_sep = 0 scripted and real tests carry their own separate-process flag; with all_sep = 1 no test carries one (every child
 comes from the registry-wide flag alone).  All numbers hexadecimal."""
 import os, re
@@ -45,14 +54,27 @@ RULE = ("(a) scripted: every outcome stream of length <= 5 (quick) / <= 6 (thoro
         "(its only source of a child) or its own flag, next to non-ignored tests of every kind, ignored scripted streams (fork failure, "
         "EINTR overrun), runs made of ignored tests only, and the same scenarios without the switch (nothing may happen); a quarter of "
         "the random sequences carry markers and the switch. "
+        "(e) several passes over one registry (2-4): a test that does nothing in the first pass(es) and then dies -- by every terminating "
+        "signal, _exit(k), a failing check, a stop, at each of the five points -- in a pass AFTER which/before which the separate-process "
+        "mode was switched on (before the first pass, between passes, two passes late), in first / middle / last position with a test "
+        "behind it; a dying test ADDED between passes (alone, with neighbours, in the step that switches the mode on, one and two "
+        "steps after it), with the mode from the first step, a later step, or from its own flag; run-ignored switched on between passes "
+        "for an IGNORE_TEST that dies (with the separate-process mode from before / from the same step / from its own flag); failing "
+        "plain tests that are run in the runner's process first and in a child after the switch; -r style repetitions with nothing changed "
+        "between passes and tests dying from pass k on; scripted streams (EINTR at the bound, fork failure) in later passes; random "
+        "programs of 2-4 steps repaired into the judged domain. "
         "non-trivial = some test with an event other than a clean exit, or an injected/scripted wait fault")
 ASSUMPTIONS = ["Linux/glibc wait-status layout and the default signal actions of signal(7); signals 1..31 only for real children",
                "the harness keeps its process group from being orphaned, so SIGTSTP/SIGTTIN/SIGTTOU stop like SIGSTOP",
                "after an EINTR overrun or a waitpid error the runner abandons the child by design (upstream test expects the give-up); "
                "the harness reaps such children itself",
                "scripted status words are 16-bit (the kernel never sets higher bits); plugin actions do not throw",
-               "one runAllTests per registry (the first repetition: the shells get their separate-process and run-ignored flags from that "
-               "very loop); with the registry-wide flag no shell carries a flag of its own"]
+               "one-pass lines: with the registry-wide flag no shell carries a flag of its own; several passes: every pass has a TestResult "
+               "of its own (as every repetition of -r has), the modes can only be switched on, a test's behaviour depends on the pass "
+               "number only through :from",
+               "judged domain over passes: a scripted or real test that is run and shows its behaviour in a pass is in separate-process "
+               "mode in that pass (own flag or the switch); a deadly test run in the runner's process by the program's own choice is "
+               "not a containment question"]
 
 
 # ------------------------------------------------------------------------------------------------ formatting
@@ -71,6 +93,19 @@ def scen(all_sep, tests, ri=0):
 
 def ign(t):
     return ":ign " + t
+
+
+def mt(t, frm=0, own=0, ig=0):
+    """a test of a several-pass program"""
+    return "%s%s%s%s" % (":from %x " % frm if frm else "", ":own " if own else "", ":ign " if ig else "", t)
+
+
+def stp(sep, ri, tests):
+    return "%x %x %x%s" % (sep, ri, len(tests), "".join(" " + x for x in tests))
+
+
+def mscen(steps):
+    return ":m %x %s" % (len(steps), " ".join(steps))
 
 
 def rnd_out(rng, kind):
@@ -222,6 +257,7 @@ def generate(tier, rng):
     out.append(scen(0, [real(inj=[":er"]), real()]))
     out.append(scen(0, [real(body=[":r 13"], inj=[":re", ":er"]), real()]))
     out.extend(gen_ignored(quick, rng, tol))
+    out.extend(gen_passes(quick, rng, tol))
     # (c) sequences
     n = 2500 if quick else 40000
     for _ in range(n):
@@ -304,19 +340,165 @@ def gen_ignored(quick, rng, tol):
     return out
 
 
+def gen_passes(quick, rng, tol):
+    """(e) several runAllTests passes over one registry.  What must be met: state carried from one pass to the next -- the mode is
+    switched on after a pass was made, or a test is added after a pass was made -- and that very test dies in the later pass."""
+    out = []
+    deadly = []       # (point, action)
+    for n, sig in enumerate(TERM):
+        pts = POINTS if (not quick or sig in (9, 11)) else [["setup", "body", "td"][n % 3], POINTS[(n * 2 + 1) % 5]]
+        for p in pts:
+            deadly.append((p, [":r %x" % sig]))
+    ks = [0, 1, 2, 255] + ([] if quick else [3, 127, 128, 254]) + [rng.randrange(256) for _ in range(2 if quick else 12)]
+    for k in ks:
+        for p in (["setup", "body", "td"] if quick and k > 1 else POINTS):
+            deadly.append((p, [":e %x" % k]))
+    # not deadly for the child, but a failure to be recorded by the parent (and deadly / stopping for a runner that runs it itself)
+    for p in POINTS:
+        for a in ([":r 13"], [":f"], [":r 14", ":r 13", ":e 0"]) + (() if quick else ([":f", ":f"], [":r 15", ":r b"], [":r 16", ":f"])):
+            deadly.append((p, a))
+    for n, (p, a) in enumerate(deadly):
+        d = real(**place(p, a))
+        after = rng.choice(PASSING[:2])      # behind a test with a child: any passing test
+        a0 = ":plain 0"                      # in a pass made in the runner's process: a plain one
+        # A: a pass in the runner's process during which the test does nothing; the mode is switched on; the test dies in the next pass
+        out.append(mscen([stp(0, 0, [mt(d, frm=1), a0]), stp(1, 0, [])]))
+        # B: the mode is on from the start; after a pass the dying test is added (it is met first)
+        out.append(mscen([stp(1, 0, [after]), stp(0, 0, [mt(d)])]))
+        if not quick or n % 3 == 0:
+            out.append(mscen([stp(0, 0, [":plain 1", mt(d, frm=1), a0]), stp(1, 0, [])]))       # middle, a0 an earlier failure
+            out.append(mscen([stp(0, 0, [a0, mt(d, frm=1)]), stp(1, 0, [])]))                   # last
+            out.append(mscen([stp(0, 0, [a0]), stp(1, 0, [mt(d), ":plain 1"])]))                # added in the step that switches
+            out.append(mscen([stp(0, 0, [a0]), stp(1, 0, []), stp(0, 0, [mt(d)])]))             # added one step a0 the switch
+            out.append(mscen([stp(1, 0, [after]), stp(0, 0, [":plain 1", mt(d), ":plain 0"])]))    # added between two others
+        if not quick or n % 3 == 1:
+            out.append(mscen([stp(0, 0, [mt(d, frm=2), a0]), stp(0, 0, []), stp(1, 0, [])]))    # two passes before the switch
+            out.append(mscen([stp(1, 0, [mt(d, frm=1), after]), stp(0, 0, []), stp(0, 0, [])]))    # -r: nothing changes, dies from repetition 2 on
+            out.append(mscen([stp(1, 0, [after, mt(d, frm=2)]), stp(0, 0, []), stp(0, 0, [])]))
+            out.append(mscen([stp(1, 0, [mt(d), after]), stp(0, 0, [])]))                          # dies in every pass
+            out.append(mscen([stp(0, 0, [a0]), stp(0, 0, [mt(d, frm=2)]), stp(1, 0, [])]))      # added, dormant for a pass, then the switch
+            out.append(mscen([stp(0, 0, [mt(d, own=1), a0]), stp(0, 0, [])]))                   # its own flag, no switch at all
+            out.append(mscen([stp(0, 0, [a0]), stp(0, 0, [mt(d, own=1)])]))
+        if not quick or n % 3 == 2:
+            # an IGNORE_TEST that dies: passed over in the first pass, then run-ignored is switched on
+            out.append(mscen([stp(0, 0, [mt(d, ig=1), a0]), stp(1, 1, [])]))                    # both modes between the passes
+            out.append(mscen([stp(1, 0, [mt(d, ig=1), after]), stp(0, 1, [])]))                    # separate-process from the start
+            out.append(mscen([stp(0, 0, [mt(d, ig=1, own=1), a0]), stp(0, 1, [])]))             # its own flag
+            out.append(mscen([stp(0, 1, [mt(d, ig=1, frm=1), a0]), stp(1, 0, [])]))             # run-ignored first, then separate-process
+            out.append(mscen([stp(1, 1, [after]), stp(0, 0, [mt(d, ig=1)])]))                      # added late
+            out.append(mscen([stp(1, 0, [after]), stp(0, 0, [mt(d, ig=1)]), stp(0, 1, [])]))       # added, passed over, then run
+    # tests failing a check in the runner's process first, in a child after the switch; ignored ones
+    for f in (0, 1):
+        for g in (0, 1):
+            out.append(mscen([stp(0, 0, [":plain %x" % f, ":plain %x" % g]), stp(1, 0, [])]))
+            out.append(mscen([stp(1, 0, [":plain %x" % f]), stp(0, 0, [":plain %x" % g])]))
+            out.append(mscen([stp(0, 0, [":plain %x" % f]), stp(0, 0, [":plain %x" % g]), stp(1, 0, []), stp(0, 0, [":plain 1"])]))
+            out.append(mscen([stp(0, 0, [mt(":plain %x" % f, ig=1), ":plain %x" % g]), stp(0, 1, []), stp(1, 0, [])]))
+            out.append(mscen([stp(0, 0, [mt(":plain %x" % f, frm=1), mt(":plain %x" % g, own=1)]), stp(0, 0, []), stp(1, 0, [])]))
+    # scripted streams in later passes (the stubs stand in for fork / waitpid only while the test shows its behaviour)
+    for k in (tol - 1, tol, tol + 1):
+        for end in (":x 0", ":k b 1", ":x 3"):
+            s_ = scr(1, [":ei"] * k + [end])
+            out.append(mscen([stp(0, 0, [mt(s_, frm=1), ":plain 0"]), stp(1, 0, [])]))
+            out.append(mscen([stp(1, 0, [":plain 0"]), stp(0, 0, [mt(s_), real()])]))
+    for s_ in (scr(0, []), scr(1, [":s 13", ":k 9 0"]), scr(1, [":er 5"]), scr(1, [":s 14", ":s 13", ":x 0"])):
+        out.append(mscen([stp(0, 0, [mt(s_, frm=1), ":plain 1"]), stp(1, 0, [])]))
+        out.append(mscen([stp(0, 0, [":plain 0"]), stp(1, 0, [mt(s_)]), stp(0, 0, [mt(s_, ig=1)]), stp(0, 1, [])]))
+        out.append(mscen([stp(0, 0, [mt(s_, own=1), ":plain 0"]), stp(0, 0, []), stp(0, 0, [])]))
+    # injected wait faults on a child of a later pass
+    for inj in ([":ei"], [":er"], [":ei"] * tol, [":ei"] * (tol + 1), [":re", ":ei"]):
+        d = real(body=[":r 13", ":r b"], inj=inj)
+        out.append(mscen([stp(0, 0, [mt(d, frm=1), ":plain 0"]), stp(1, 0, [])]))
+        out.append(mscen([stp(1, 0, [real()]), stp(0, 0, [mt(d)])]))
+    # random programs, repaired into the judged domain
+    for _ in range(250 if quick else 8000):
+        ns = rng.choice([2, 2, 3, 3, 4])
+        steps = []
+        for k in range(ns):
+            nadd = rng.randrange(1, 4) if k == 0 else rng.choice([0, 0, 1, 1, 2])
+            tests = []
+            for _ in range(nadd):
+                c = rng.random()
+                if c < 0.45:
+                    x = real(**place(rng.choice(POINTS), [rng.choice([":r %x" % rng.choice(TERM), ":e %x" % rng.choice([0, 1, rng.randrange(256)]),
+                                                                      ":r %x" % rng.choice(STOP), ":f"])]))
+                elif c < 0.6:
+                    x = rng.choice(PASSING)
+                else:
+                    x = rnd_test(rng, tol)
+                tests.append(mt(x, frm=rng.choice([0, 0, 0, 1, 1, 2]), own=rng.random() < 0.15, ig=rng.random() < 0.2))
+            steps.append(stp(rng.random() < (0.3 if k == 0 else 0.4), rng.random() < 0.2, tests))
+        st = repair(parse_steps(mscen(steps)), rng)
+        if valid_steps(st):
+            out.append(fmt_steps(st))
+    return out
+
+
 # ------------------------------------------------------------------------------------------------ parsing (classification, shrinking)
 class T(list):
-    """a parsed test: ["plain", f] | ["scr", ok, outs] | ["real", pre, setup, body, td, post, inj], with the IGNORE_TEST marker"""
+    """a parsed test: ["plain", f] | ["scr", ok, outs] | ["real", pre, setup, body, td, post, inj], with the IGNORE_TEST marker and,
+    in a several-pass program, the own separate-process flag and the pass from which the test shows its behaviour"""
     ign = False
+    own = False
+    frm = 0
 
 
-def mk(l, ign=False):
+def mk(l, ign=False, own=False, frm=0):
     t = T(l)
     t.ign = ign
+    t.own = own
+    t.frm = frm
     return t
 
 
+def parse_test(t, i):
+    frm, own, ig = 0, False, False
+    if t[i] == ":from":
+        frm = int(t[i + 1], 16)
+        i += 2
+    if t[i] == ":own":
+        own = True
+        i += 1
+    if t[i] == ":ign":
+        ig = True
+        i += 1
+    k = t[i]
+    if k == ":plain":
+        return mk(["plain", int(t[i + 1], 16)], ig, own, frm), i + 2
+    if k == ":scr":
+        ok = int(t[i + 1], 16)
+        m = int(t[i + 2], 16)
+        i += 3
+        outs = []
+        for _ in range(m):
+            w = {":ei": 1, ":er": 2, ":c": 1, ":x": 2, ":s": 2, ":k": 3}[t[i]]
+            outs.append(" ".join(t[i:i + w]))
+            i += w
+        return mk(["scr", ok, outs], ig, own, frm), i
+    i += 1
+    ph = []
+    for _ in range(5):
+        m = int(t[i], 16)
+        i += 1
+        acts = []
+        for _ in range(m):
+            w = 1 if t[i] == ":f" else 2
+            acts.append(" ".join(t[i:i + w]))
+            i += w
+        ph.append(acts)
+    m = int(t[i], 16)
+    i += 1
+    ph.append(t[i:i + m])
+    i += m
+    return mk(["real"] + ph, ig, own, frm), i
+
+
+def is_multi(s):
+    return s.startswith(":m ")
+
+
 def parse_full(s):
+    """one-pass line -> (ri, all_sep, tests)"""
     t = s.split()
     ri = 0
     if t[0] == ":ri":
@@ -327,55 +509,95 @@ def parse_full(s):
     i = 2
     tests = []
     for _ in range(n):
-        ig = False
-        if t[i] == ":ign":
-            ig = True
-            i += 1
-        k = t[i]
-        if k == ":plain":
-            tests.append(mk(["plain", int(t[i + 1], 16)], ig))
-            i += 2
-        elif k == ":scr":
-            ok = int(t[i + 1], 16)
-            m = int(t[i + 2], 16)
-            i += 3
-            outs = []
-            for _ in range(m):
-                w = {":ei": 1, ":er": 2, ":c": 1, ":x": 2, ":s": 2, ":k": 3}[t[i]]
-                outs.append(" ".join(t[i:i + w]))
-                i += w
-            tests.append(mk(["scr", ok, outs], ig))
-        else:
-            i += 1
-            ph = []
-            for _ in range(5):
-                m = int(t[i], 16)
-                i += 1
-                acts = []
-                for _ in range(m):
-                    w = 1 if t[i] == ":f" else 2
-                    acts.append(" ".join(t[i:i + w]))
-                    i += w
-                ph.append(acts)
-            m = int(t[i], 16)
-            i += 1
-            ph.append(t[i:i + m])
-            i += m
-            tests.append(mk(["real"] + ph, ig))
+        x, i = parse_test(t, i)
+        tests.append(x)
     return ri, all_sep, tests
 
 
+def parse_steps(s):
+    """any line -> [[sep, ri, tests], ...]; a one-pass line is one step (scripted / real tests carry their own flag when all_sep = 0)"""
+    if not is_multi(s):
+        ri, all_sep, tests = parse_full(s)
+        for x in tests:
+            x.own = x[0] != "plain" and not all_sep
+        return [[all_sep, ri, tests]]
+    t = s.split()
+    ns = int(t[1], 16)
+    i = 2
+    steps = []
+    for _ in range(ns):
+        sep, ri, n = int(t[i], 16), int(t[i + 1], 16), int(t[i + 2], 16)
+        i += 3
+        tests = []
+        for _ in range(n):
+            x, i = parse_test(t, i)
+            tests.append(x)
+        steps.append([sep, ri, tests])
+    return steps
+
+
+def fmt_test(t):
+    if t[0] == "plain":
+        return ":plain %x" % t[1]
+    if t[0] == "scr":
+        return scr(t[1], t[2])
+    return real(*t[1:7])
+
+
 def fmt(all_sep, tests, ri=0):
-    o = []
-    for t in tests:
-        if t[0] == "plain":
-            x = ":plain %x" % t[1]
-        elif t[0] == "scr":
-            x = scr(t[1], t[2])
-        else:
-            x = real(*t[1:7])
-        o.append(ign(x) if getattr(t, "ign", False) else x)
-    return scen(all_sep, o, ri)
+    return scen(all_sep, [ign(fmt_test(t)) if getattr(t, "ign", False) else fmt_test(t) for t in tests], ri)
+
+
+def fmt_steps(steps):
+    return mscen([stp(sep, ri, [mt(fmt_test(x), x.frm, x.own, x.ign) for x in tests]) for sep, ri, tests in steps])
+
+
+def views(steps):
+    """per pass: (separate-process switched on by then, run-ignored switched on by then, the tests in the order in which they are met)"""
+    out = []
+    wsep = wri = 0
+    present = []
+    for sep, ri, tests in steps:
+        wsep, wri = wsep or sep, wri or ri
+        present = list(tests) + present
+        out.append((1 if wsep else 0, 1 if wri else 0, list(present)))
+    return out
+
+
+def awake(k, t):
+    return k >= t.frm
+
+
+def eff_test(k, t):
+    """the test as it behaves in pass k"""
+    return t if awake(k, t) else mk(["plain", 0], t.ign, t.own, t.frm)
+
+
+def valid_steps(steps):
+    """the judged domain (mirror of valid_m): a test in the first pass, and a scripted / real test that is run and shows its behaviour in
+    a pass is in separate-process mode there"""
+    if not steps or not steps[0][2]:
+        return False
+    for k, (wsep, wri, present) in enumerate(views(steps)):
+        for x in present:
+            if awake(k, x) and not (x.ign and not wri) and x[0] != "plain" and not (x.own or wsep):
+                return False
+    return True
+
+
+def repair(steps, rng):
+    """bring a random program into the judged domain: a test that would need a child in a pass without the mode gets its own flag or
+    sleeps until the mode is on"""
+    vs = views(steps)
+    first_sep = next((k for k, v in enumerate(vs) if v[0]), None)
+    for k, (wsep, wri, present) in enumerate(vs):
+        for x in present:
+            if awake(k, x) and not (x.ign and not wri) and x[0] != "plain" and not (x.own or wsep):
+                if first_sep is not None and first_sep > k and rng.random() < 0.7:
+                    x.frm = first_sep
+                else:
+                    x.own = True
+    return steps
 
 
 def skipped(ri, t):
@@ -383,6 +605,8 @@ def skipped(ri, t):
 
 
 def nontrivial(s):
+    if is_multi(s):
+        return True
     ri, _, tests = parse_full(s)
     if any(t.ign for t in tests):
         return True
@@ -413,7 +637,67 @@ def deadly_point(t):
     return None
 
 
+def classify_multi(s):
+    steps = parse_steps(s)
+    vs = views(steps)
+    lab = ["passes:%d" % len(steps)]
+    first_sep = next((k for k, v in enumerate(vs) if v[0]), None)
+    first_ri = next((k for k, v in enumerate(vs) if v[1]), None)
+    lab.append("sep-switched-on:" + ("never" if first_sep is None else "before-first-pass" if first_sep == 0 else "between-passes"))
+    lab.append("ri-switched-on:" + ("never" if first_ri is None else "before-first-pass" if first_ri == 0 else "between-passes"))
+    if any(st[2] for st in steps[1:]):
+        lab.append("tests-added-between-passes")
+    if not any(st[0] or st[1] or st[2] for st in steps[1:]):
+        lab.append("plain-repetition")
+    added_at = {}
+    for k, st in enumerate(steps):
+        for x in st[2]:
+            added_at[id(x)] = k
+    for k, (wsep, wri, present) in enumerate(vs):
+        for n, x in enumerate(present):
+            if not awake(k, x) or (x.ign and not wri):
+                continue
+            how = None
+            if x[0] == "real":
+                d = deadly_point(x)
+                if d:
+                    how = "dies@" + d
+                elif any(x[1:6]):
+                    how = "fails-or-stops"
+            elif x[0] == "scr" and (not x[1] or any(o != ":x 0" for o in x[2])):
+                how = "scripted-event"
+            elif x[0] == "plain" and x[1] and (x.own or wsep):
+                how = "failing-check-in-child"
+            if not how or k == 0:
+                continue
+            ctx = []
+            if added_at[id(x)] > 0:
+                ctx.append("test-added-late")
+                if first_sep is not None and added_at[id(x)] > first_sep:
+                    ctx.append("added-after-the-switch")
+                elif first_sep is not None and added_at[id(x)] == first_sep:
+                    ctx.append("added-with-the-switch")
+            if not x.own and first_sep is not None and first_sep > 0:
+                ctx.append("mode-switched-on-late")
+            if x.own:
+                ctx.append("own-flag")
+            if x.ign and first_ri is not None and first_ri > 0:
+                ctx.append("ignored-run-after-late-ri")
+            if x.frm > 0:
+                ctx.append("dormant-before")
+            pos = "first" if n == 0 else "last" if n == len(present) - 1 else "middle"
+            lab.append("later-pass:%s" % how.split("@")[0])
+            lab.append("later-pass:position-" + pos)
+            for c in ctx:
+                lab.append("later-pass:%s:%s" % (how.split("@")[0], c))
+            if how.startswith("dies@"):
+                lab.append("later-pass:" + how)
+    return sorted(set(lab))
+
+
 def classify(s):
+    if is_multi(s):
+        return classify_multi(s)
     ri, all_sep, tests = parse_full(s)
     lab = ["tests:%d" % min(len(tests), 7), "all_sep:%d" % all_sep, "run_ignored:%d" % ri]
     tol = source_bound()
@@ -527,7 +811,98 @@ def py_expect(outs, tol):
     return f, c, False, seen
 
 
+def sig_pass(tests, seps, ri, toks, i, tol):
+    """wording of the first discrepancy in one pass; tests = the tests as they behave in this pass, seps = separate-process mode per
+    test.  Returns (text or None, index behind the pass's :end record)."""
+    earlier = False
+    nfs = 0
+    for n, t in enumerate(tests):
+        if i >= len(toks) or toks[i] != ":t":
+            return "test %s missing from the record" % t[0], i
+        started, nf = toks[i + 1], int(toks[i + 2], 16)
+        j = i + 3
+        for _ in range(nf):
+            j += 2 if toks[j] == ":k" else 1
+        calls, lost = int(toks[j], 16), toks[j + 2]
+        i = j + 3
+        nfs += nf
+        if skipped(ri, t):
+            shape = "ignored %s (no run-ignored)" % t[0]
+            if started != "0":
+                return shape + " was started", i
+            if nf or calls:
+                return shape + " failures %d waits %d want none" % (nf, calls), i
+            continue
+        if t[0] == "plain" and not seps[n]:
+            want, seen = (t[1], 0, True), ["in-process"]
+        elif t[0] == "scr" and not t[1]:
+            want, seen = (1, 0, True), ["fork-error"]
+        else:
+            outs = t[2] + [":x 0"] if t[0] == "scr" else py_trace(t if t[0] == "real" else ["real", [], [], [":f"] if t[1] else [], [], [], []])
+            f, c, reaped, seen = py_expect(outs, tol)
+            want = (f, c, reaped or t[0] == "scr")
+        ne = seen.count(":ei")
+        shape = "%s%s[%s%s]%s" % ("ignored(run) " if t.ign else "", t[0], "ei*%s " % ("<=tol" if ne <= tol else ">tol") if ne else "",
+                                 " ".join(x for x in seen if x != ":ei"), " after earlier failures" if earlier else "")
+        if started != "1":
+            return shape + " not started", i
+        if nf != want[0]:
+            return shape + " failures %d want %d" % (nf, want[0]), i
+        if calls != want[1]:
+            return shape + " waits %d want %d" % (calls, want[1]), i
+        if want[2] and lost == "1":
+            return shape + " child left behind", i
+        earlier = earlier or nf > 0
+    if i >= len(toks) or toks[i] != ":end":
+        return "more tests recorded than the registry has", i
+    total, isf, run, ig = int(toks[i + 1], 16), toks[i + 2], int(toks[i + 3], 16), int(toks[i + 4], 16)
+    nskip = sum(1 for t in tests if skipped(ri, t))
+    if total != nfs or isf != ("1" if total else "0") or run != len(tests) - nskip or ig != nskip:
+        return "totals / overall verdict / run and ignored counts", i + 6
+    return None, i + 6
+
+
+def signature_multi(s, o):
+    steps = parse_steps(s)
+    vs = views(steps)
+    first_sep = next((k for k, v in enumerate(vs) if v[0]), None)
+    ctx = []
+    if first_sep is not None and first_sep > 0:
+        ctx.append("separate-process switched on after a pass")
+    if any(v[1] for v in vs) and not vs[0][1]:
+        ctx.append("run-ignored switched on after a pass")
+    if any(st[2] for st in steps[1:]):
+        ctx.append("tests added after a pass")
+    ctx = " [" + ", ".join(ctx) + "]" if ctx else ""
+    if o.startswith("!"):
+        return "crash: harness %s over several passes%s" % ("hung" if o.startswith("!HANG") else "died", ctx)
+    toks = o.split()
+    tol = source_bound()
+    late = False
+    i = 0
+    for k, (wsep, wri, present) in enumerate(vs):
+        where = "first pass" if k == 0 else "later pass"
+        if i < len(toks) and toks[i] == ":died":
+            how = toks[i + 2][1:] if i + 2 < len(toks) else "?"
+            return "died: runner's own process %s in the %s%s" % (how, where, ctx)
+        if i >= len(toks):
+            return "%s missing from the record%s" % (where, ctx)
+        tests = [eff_test(k, x) for x in present]
+        msg, i = sig_pass(tests, [x.own or wsep for x in present], wri, toks, i, tol)
+        late = late or (i - 1 < len(toks) and i >= 1 and toks[i - 1] == "1")
+        if msg:
+            return "late " * late + "%s: %s%s" % (where, msg, ctx)
+    if i < len(toks):
+        return "late " * late + "record goes on after the last pass" + ctx
+    return "late " * late + "no discrepancy found by the wording code" + ctx
+
+
 def signature(s, o):
+    try:
+        if is_multi(s):
+            return signature_multi(s, o)
+    except Exception as e:
+        return "malformed observation (several passes)"
     if o.startswith("!"):
         # the runner's own process died or hung: say how, and what kind of scenario it was (the observation cannot tell which test)
         try:
@@ -545,51 +920,99 @@ def signature(s, o):
         tol = source_bound()
         ri, all_sep, tests = parse_full(s)
         toks = o.split()
-        i = 0
         late = toks[-1] == "1"
-        earlier = False
-        for n, t in enumerate(tests):
-            if toks[i] != ":t":
-                return "late " * late + "test %s missing from the record" % t[0]
-            started, nf = toks[i + 1], int(toks[i + 2], 16)
-            j = i + 3
-            for _ in range(nf):
-                j += 2 if toks[j] == ":k" else 1
-            calls, lost = int(toks[j], 16), toks[j + 2]
-            i = j + 3
-            if skipped(ri, t):
-                shape = "ignored %s (no run-ignored)" % t[0]
-                if started != "0":
-                    return "late " * late + shape + " was started"
-                if nf or calls:
-                    return "late " * late + shape + " failures %d waits %d want none" % (nf, calls)
-                continue
-            if t[0] == "plain" and not all_sep:
-                want, seen = (t[1], 0, True), ["in-process"]
-            elif t[0] == "scr" and not t[1]:
-                want, seen = (1, 0, True), ["fork-error"]
-            else:
-                outs = t[2] + [":x 0"] if t[0] == "scr" else py_trace(t if t[0] == "real" else ["real", [], [], [":f"] if t[1] else [], [], [], []])
-                f, c, reaped, seen = py_expect(outs, tol)
-                want = (f, c, reaped or t[0] == "scr")
-            ne = seen.count(":ei")
-            shape = "%s%s[%s%s]%s" % ("ignored(run) " if t.ign else "", t[0], "ei*%s " % ("<=tol" if ne <= tol else ">tol") if ne else "",
-                                     " ".join(x for x in seen if x != ":ei"), " after earlier failures" if earlier else "")
-            if started != "1":
-                return "late " * late + shape + " not started"
-            if nf != want[0]:
-                return "late " * late + shape + " failures %d want %d" % (nf, want[0])
-            if calls != want[1]:
-                return "late " * late + shape + " waits %d want %d" % (calls, want[1])
-            if want[2] and lost == "1":
-                return "late " * late + shape + " child left behind"
-            earlier = earlier or nf > 0
-        return "late " * late + "totals / overall verdict / run and ignored counts"
+        if ":died" in toks:
+            ctx = []
+            if any(t.ign and ri for t in tests):
+                ctx.append("an IGNORE_TEST is run (run-ignored)")
+            if all_sep:
+                ctx.append("registry-wide separate-process flag")
+            return "died: runner's own process %s%s" % (toks[toks.index(":died") + 2][1:], " [" + ", ".join(ctx) + "]" if ctx else "")
+        msg, _ = sig_pass(tests, [all_sep] * len(tests), ri, toks, 0, tol)
+        return "late " * late + (msg or "totals / overall verdict / run and ignored counts")
     except Exception as e:
         return "malformed observation"
 
 
+def shrink_test(t):
+    """smaller versions of one test (markers kept)"""
+    if t[0] == "scr":
+        outs = t[2]
+        if len(outs) > 8:
+            yield mk(["scr", t[1], outs[:len(outs) // 2]], t.ign, t.own, t.frm)
+            yield mk(["scr", t[1], outs[len(outs) // 2:]], t.ign, t.own, t.frm)
+        for j in range(len(outs)):
+            yield mk(["scr", t[1], outs[:j] + outs[j + 1:]], t.ign, t.own, t.frm)
+    elif t[0] == "real":
+        for p in range(1, 7):
+            for j in range(len(t[p])):
+                nt = list(t)
+                nt[p] = list(t[p][:j]) + list(t[p][j + 1:])
+                yield mk(nt, t.ign, t.own, t.frm)
+
+
+def copy_steps(steps):
+    return [[sep, ri, [mk(list(x), x.ign, x.own, x.frm) for x in tests]] for sep, ri, tests in steps]
+
+
+def shrink_multi(s):
+    steps = parse_steps(s)
+    cands = []
+    n = len(steps)
+    if n > 1:
+        cands.append(copy_steps(steps[:-1]))                         # without the last pass
+        for k in range(1, n):                                        # without the pass between step k-1 and step k
+            c = copy_steps(steps)
+            for st in c:
+                for x in st[2]:
+                    if x.frm >= k:
+                        x.frm -= 1
+            c[k - 1] = [c[k - 1][0] or c[k][0], c[k - 1][1] or c[k][1], c[k][2] + c[k - 1][2]]
+            del c[k]
+            cands.append(c)
+    for k in range(n):
+        for j in range(len(steps[k][2])):
+            c = copy_steps(steps)
+            del c[k][2][j]
+            cands.append(c)
+    for k in range(n):
+        for w in (0, 1):
+            if steps[k][w]:
+                c = copy_steps(steps)
+                c[k][w] = 0
+                cands.append(c)
+    for k in range(n):
+        for j, x in enumerate(steps[k][2]):
+            if x.ign:
+                c = copy_steps(steps)
+                c[k][2][j].ign = False
+                cands.append(c)
+            if x.own:
+                c = copy_steps(steps)
+                c[k][2][j].own = False
+                cands.append(c)
+            if x.frm:
+                c = copy_steps(steps)
+                c[k][2][j].frm = 0
+                cands.append(c)
+                if x.frm > 1:
+                    c = copy_steps(steps)
+                    c[k][2][j].frm = x.frm - 1
+                    cands.append(c)
+            for nt in shrink_test(x):
+                c = copy_steps(steps)
+                c[k][2][j] = nt
+                cands.append(c)
+    for c in cands:
+        if valid_steps(c):
+            yield fmt_steps(c)
+
+
 def shrink(s):
+    if is_multi(s):
+        for c in shrink_multi(s):
+            yield c
+        return
     ri, all_sep, tests = parse_full(s)
     if len(tests) > 1:
         for i in range(len(tests)):
@@ -601,23 +1024,10 @@ def shrink(s):
         if any(t.ign for t in tests):      # the switch and the markers together: the same tests as ordinary ones
             yield fmt(all_sep, [mk(t) for t in tests], 0)
     for i, t in enumerate(tests):
-        def rep(nt):
-            return fmt(all_sep, tests[:i] + [mk(nt, t.ign)] + tests[i + 1:], ri)
         if t.ign:
             yield fmt(all_sep, tests[:i] + [mk(t)] + tests[i + 1:], ri)
-        if t[0] == "scr":
-            outs = t[2]
-            if len(outs) > 8:
-                yield rep(["scr", t[1], outs[:len(outs) // 2]])
-                yield rep(["scr", t[1], outs[len(outs) // 2:]])
-            for j in range(len(outs)):
-                yield rep(["scr", t[1], outs[:j] + outs[j + 1:]])
-        elif t[0] == "real":
-            for p in range(1, 7):
-                for j in range(len(t[p])):
-                    nt = list(t)
-                    nt[p] = list(t[p][:j]) + list(t[p][j + 1:])
-                    yield rep(nt)
+        for nt in shrink_test(t):
+            yield fmt(all_sep, tests[:i] + [nt] + tests[i + 1:], ri)
 
 
 LEVEL_TEXT = ("Machine-checked (Coq) theorems over an executable model of the separate-process runner (status-word decoding exactly as the glibc "
@@ -628,11 +1038,18 @@ LEVEL_TEXT = ("Machine-checked (Coq) theorems over an executable model of the se
               "stop / abnormal end / failing fork or wait (none iff forked, no stop, exit 0), interrupted waits within the bound are transparent, "
               "every later test is still run and the run is reported failed; an IGNORE_TEST run under the run-ignored switch is recorded exactly "
               "as the same test not marked ignored (same wait loop, same containment), without the switch it has no child, no wait and no "
-              "failure whatever its program and is counted as ignored. Tied to the code by a differential run of the extracted model "
+              "failure whatever its program and is counted as ignored. Several runAllTests passes over one registry (the modes switched on "
+              "before the first pass or between passes, tests added between passes; shells carrying sticky flags, the loop pushing the "
+              "registry's switches onto every shell in every pass): every pass is, item for item, the first pass of a fresh registry with the "
+              "switches and tests of that moment, a dying test is contained in every pass whenever it was added and whenever the mode was "
+              "switched on, the runner lives through all passes, and a registry that pushes its switches in the first pass only is refuted "
+              "against the oracle. Tied to the code by a differential run of the extracted model "
               "against the real library: scripted fork/waitpid outcome streams through the PlatformSpecific seams and real children dying by "
               "every signal 1..31, exit status, failing check or stop at every crash point, as ordinary tests and as IGNORE_TESTs with and "
               "without -ri, their child coming from the registry-wide flag alone or from their own; the extracted model-free spec judges the "
-              "implementation, and a death of the runner's own process on a scenario is a violation.")
+              "implementation. Every scenario is executed in a runner process of its own under the harness as supervisor, one or several "
+              "passes over one real TestRegistry: a test executed in the runner's own process that kills, ends or stops it is observed as "
+              "'runner died' and refused by the oracle.")
 LEVEL_NOTE = ("Partial: kernel delivery of signals, zombie reaping and SIGCONT are observed on real children, not modelled beyond the default-action "
               "table and the status-word layout (both trusted, stated in C11_Model.v). Retry bound, comparison, WUNTRACED and the six message "
               "texts are re-read from UtestPlatform.cpp on every run. After an EINTR overrun or a waitpid error the runner abandons the child by "
